@@ -67,9 +67,40 @@ Proof. vm_compute. reflexivity. Qed.
 Lemma expected_closed : table_closed expected = true.
 Proof. vm_compute. reflexivity. Qed.
 
+Lemma lift2l {B C} (lb : list B) (lc : list C) (P : B -> C -> bool) :
+  forallb (fun b => forallb (fun c => P b c) lc) lb = true ->
+  forall b c, In b lb -> In c lc -> P b c = true.
+Proof.
+  intros H b c Hb Hc.
+  exact (forallb_In _ _ (forallb_In _ _ H b Hb) c Hc).
+Qed.
+
 (* what the per-operation files prove by computation, lifted *)
-Lemma check_op_lift (o : opk) (t : table) (rt : rtable) :
-  check_op o t rt = true ->
+Lemma check_op_ok_lift (o : opk) (t : table) (rt : rtable) :
+  check_op_ok o t rt = true ->
+  forall fl l ad, In fl (flag_space o) -> In l ledgers -> follows t rt (mkScen o fl l ad) [] = true.
+Proof.
+  intros H fl l ad Hfl Hl.
+  exact (lift3 (flag_space o) ledgers (fun fl l ad => follows t rt (mkScen o fl l ad) [])
+               H fl l ad Hfl Hl).
+Qed.
+
+Lemma check_op_fail_lift (o : opk) (t : table) (rt : rtable) :
+  check_op_fail o t rt = true ->
+  forall fl l,
+    In fl (fail_flag_space o) -> In l (fail_ledgers o) ->
+    follows t rt (mkScen o fl l false) [] = true /\
+    forall n, n < List.length (model_trace (mkScen o fl l false) []) ->
+              follows t rt (mkScen o fl l false) [n] = true.
+Proof.
+  intros H fl l Hfl Hl.
+  exact (single_ok_spec _ _
+           (lift2l (fail_flag_space o) (fail_ledgers o) (fun fl l => scen_ok t rt (mkScen o fl l false))
+                   H fl l Hfl Hl)).
+Qed.
+
+Lemma check_op_deep_lift (o : opk) (t : table) (rt : rtable) :
+  check_op_deep o t rt = true ->
   forall fl l ad,
     In fl (flag_space o) -> In l ledgers ->
     follows t rt (mkScen o fl l ad) [] = true /\
@@ -84,13 +115,11 @@ Qed.
 
 Lemma check_op_all_flags_lift (o : opk) (t : table) (rt : rtable) :
   check_op_all_flags o t rt = true ->
-  forall a c k r h d co tk l ad,
-    In l ledgers ->
-    follows t rt (mkScen o (mkFlags a c k r 2 h d co tk 0) l ad) [] = true.
+  forall a c k r h d co tk,
+    follows t rt (mkScen o (mkFlags a c k r 2 h d co tk 0) (main_ledger o) false) [] = true.
 Proof.
-  intros H a c k r h d co tk l ad Hl.
-  pose proof (all_flags_spec 2 0 _ H a c k r h d co tk) as H1. cbv beta in H1.
-  exact (lift2 ledgers (fun l ad => follows t rt (mkScen o (mkFlags a c k r 2 h d co tk 0) l ad) []) H1 l ad Hl).
+  intros H a c k r h d co tk.
+  exact (all_flags_spec 2 0 _ H a c k r h d co tk).
 Qed.
 
 (* the checker is not vacuous: it rejects the model's install trace with the storage create
